@@ -100,6 +100,22 @@ def run_case(case):
         if best >= 2:
             nontriv += 1
         p = check_circuit(qc, n)
+        if not p and len(seq) <= 3:
+            # the same circuit as a vanilla copy (default names, no uncompute bookkeeping) and the optimizer's own output as input
+            from qlasskit.decompiler import circuit_boolean_optimizer
+            v = qc.copy(True)
+            p = check_circuit(v, n)
+            if p:
+                p = "on a vanilla copy: " + p
+            else:
+                try:
+                    o1 = circuit_boolean_optimizer(qc)
+                    p = check_circuit(o1, n)
+                    if p:
+                        p = "second pass (optimizer output as input): " + p
+                except Exception:
+                    pass
+            rows += 6
         if p:
             bad.append({"circuit": circs.text(A, idxs), "n": n, "problem": p})
             if len(bad) >= 50:
